@@ -20,12 +20,29 @@ def strip(r):
   return {k: v for k, v in r.items() if k != 'trace'}
 
 
+def keys_of(r):
+  return sorted([e[1], e[2], e[3]] for e in r.get('trace', []) if e[0] == 'key')
+
+
+def has_jit(prog):
+  return any(s[0] == 'child' and len(s) == 5 and s[4] == 'jit' for body, _ in prog['classes'].values() for s in body)
+
+
 def has_auto_lifted(prog):
   return any(s[0] == 'child' and len(s) == 5 and s[3] is None for body, _ in prog['classes'].values() for s in body)
 
 
 def keys_outside_jit(trace, prog):
   return trace
+
+
+def vary_sels(rng, n):
+  """per-call static attributes; half of the time only the closure changes between calls (same branches and trip counts)"""
+  first = LP.gen_sel(rng)
+  out = [first]
+  for _ in range(n - 1):
+    out.append(dict(first, post=rng.choice([None, 1, 2, -1, 3])) if rng.random() < 0.5 else LP.gen_sel(rng))
+  return out
 
 
 def run(chk):
@@ -43,7 +60,7 @@ def run(chk):
       r = rng.random()
       muts.append(True if r < 0.45 else LP.gen_filter(rng))
     cases.append({'prog': prog, 'streams': rng.choice([['params'], ['params', 'dropout'], ['params', 'dropout', 'noise']]), 'mutables': muts,
-                  'xs': [[rng.randint(-3, 3) for _ in range(n)] for _ in range(ncalls + 1)], 'sels': [LP.gen_sel(rng) for _ in range(ncalls + 1)],
+                  'xs': [[rng.randint(-3, 3) for _ in range(n)] for _ in range(ncalls + 1)], 'sels': vary_sels(rng, ncalls + 1),
                   'drop_after_first': rng.choice([None, None, 'cache', 'batch_stats', 'perturbations'])})
   W = 14
   results = common.run_impl_parallel('impl_c05.py', [{'cases': cases[i::W]} for i in range(W)], workers=W, timeout=3000)
@@ -85,6 +102,11 @@ def run(chk):
         break
       if 'err' in ra:
         break
+      if not auto and not has_jit(c['prog']) and keys_of(a['res']) != keys_of(b['res']):
+        chk.violation('oracle', 'the keys drawn by the program with lifted remat / map_variables / control flow differ from the keys of the plain program',
+                      {'case': c, 'x': x, 'lifted_keys': keys_of(a['res']), 'plain_keys': keys_of(b['res'])})
+        bad = True
+        break
       if not auto and (ra != rb or a['vars_in'] != b['vars_in']):
         chk.violation('oracle', 'apply of the program with lifted transforms differs from the plain program (output, or set / values of the updated mutable collections)',
                       {'case': c, 'x': x, 'mutable': mut, 'lifted': ra, 'plain': rb})
@@ -115,6 +137,10 @@ def run(chk):
     chk.violation('correspondence', 'Model/Linen.v on the plain equivalent (transformed class names, control flow resolved) and the program run with the lifted transforms disagree on init or '
                   'apply (output, returned collections, names, or error class); theorems C05_* no longer transfer', {'case': c, 'observed_lifted': o['ok']['lifted']})
   chk.cov['traces_validated_against_impl'] = len(rows)
+  pr = common.run_impl('impl_c05.py', {'probe': True})
+  if pr['F26-jit-stale-trace-closure']['fails']:
+    chk.violation('oracle', 'nn.jit re-uses a trace made for another module instance: instances of a jitted class that differ only in a closure-valued attribute return the result of an '
+                  'earlier closure (fixed as F26: _HashableProxy compared hashes only, and functions hash by address)', pr['F26-jit-stale-trace-closure'])
   chk.notes['stats'] = stat
   chk.cov['rule'] = ('random compact module programs (C01 generator) in which 60% of the sub-modules are created from nn.jit / nn.remat / nn.map_variables(identity) classes (explicit and automatic '
                      'names) and nn.cond / nn.switch / nn.while_loop statements act on variables declared before; init then 1-3 applies on the same Module instance with changing `mutable` '
